@@ -26,10 +26,12 @@ RULE = (
     "input vertex or an exact crossing point (exactly when its denominator is <= 1e9, within 1e-12 when the cap "
     "rounds it), of rational type, and "
     "intersection() parameters must be the exact rationals. Part 'transform': move/scale by rationals and split at "
-    "rational parameters give the exact rational coordinates. Non-trivial: some derived coordinate has "
+    "rational parameters give the exact rational coordinates. Part 'primitives': Primitive.square / triangle / "
+    "regular_polygon(4) with int/Fraction side and centre have exactly the documented rational vertices, area and "
+    "moments, of rational type. Non-trivial: some derived coordinate has "
     "denominator > 1000."
 )
-MANDATORY = ["denominator>1e9", "denominator<=1e9", "operators", "crossing-den>1e9", "move", "scale", "split", "py311"]
+MANDATORY = ["primitive:int-side", "denominator>1e9", "denominator<=1e9", "operators", "crossing-den>1e9", "move", "scale", "split", "py311"]
 CAP = 10**9
 
 
@@ -397,6 +399,63 @@ def judge_moments(ctx, case):
     c04.judge(ctx, case)
 
 
+# ------------------------------------------------------------------ primitives
+def judge_primitive(ctx, case):
+    """the factories whose documented vertices are rational expressions of
+    rational parameters (square, triangle, the 4-gon) are rational input like
+    any other: vertices, area and first moments are the exact rationals"""
+    Sp = lib.sp()
+    kind, side, c = case["kind"], case["side"], case["center"]
+    cx, cy = F(c[0]), F(c[1])
+    sd = F(side)
+    if kind == "square":
+        h = sd / 2
+        want = [(cx + h, cy + h), (cx - h, cy + h), (cx - h, cy - h), (cx + h, cy - h)]
+        make = lambda: Sp.Primitive.square(side, tuple(c)) if not case.get("default_center") else Sp.Primitive.square(side)
+    elif kind == "triangle":
+        want = [(cx, cy), (cx + sd, cy), (cx, cy + sd)]
+        make = lambda: Sp.Primitive.triangle(side, tuple(c)) if not case.get("default_center") else Sp.Primitive.triangle(side)
+    else:
+        want = [(cx + sd, cy), (cx, cy + sd), (cx - sd, cy), (cx, cy - sd)]
+        make = lambda: Sp.Primitive.regular_polygon(4, side, tuple(c)) if not case.get("default_center") else Sp.Primitive.regular_polygon(4, side)
+    if case.get("default_center"):
+        dx, dy = -cx, -cy
+        want = [(x + dx, y + dy) for x, y in want]
+    big = any(_expect_stored(v) != v for pt in want for v in pt)
+    ctx.evaluated(case, isinstance(side, F) or any(isinstance(v, F) for v in c), ["primitive", "primitive:" + kind] + (["primitive:int-side"] if isinstance(side, int) else []))
+    if big:
+        return
+    try:
+        with call_limit(60):
+            shape = make()
+            verts = [(v[0], v[1]) for v in shape.jordans[0].vertices]
+            area = Sp.IntegrateShape.area(shape)
+            mx = Sp.IntegrateShape.polynomial(shape, 1, 0)
+            myy = Sp.IntegrateShape.polynomial(shape, 0, 2)
+    except BaseException as exc:
+        ctx.violation("primitive", "raised", case, repr(exc), innermost_shapepy_frame(exc))
+        return
+    for x in [v for pt in verts for v in pt] + [area, mx, myy]:
+        if not _wellformed(x):
+            ctx.violation("primitive", "not-rational", case, "%s(%r, %r): %r of type %s" % (kind, side, c, x, type(x).__name__), kind)
+            return
+    if sorted(verts) != sorted(want):
+        ctx.violation("primitive", "vertices-not-exact", case, "%s(%r, %r): vertices %r, exact %r" % (kind, side, c, verts, want), kind)
+        return
+    poly = [[a, b] for a, b in zip(want, want[1:] + want[:1])]
+    if area != rg.curve_moment(poly, 0, 0) or mx != rg.curve_moment(poly, 1, 0) or myy != rg.curve_moment(poly, 0, 2):
+        ctx.violation("primitive", "integral-not-exact", case, "%s(%r, %r): area %r, Mx %r, Myy %r" % (kind, side, c, area, mx, myy), kind)
+
+
+@st.composite
+def primitive_cases(draw):
+    num = st.one_of(st.integers(1, 60), st.builds(F, st.integers(1, 4000), st.sampled_from([1, 2, 3, 7, 8, 10, 1000, 9973])))
+    co = st.one_of(st.integers(-50, 50), st.builds(F, st.integers(-4000, 4000), st.sampled_from([1, 2, 3, 7, 16, 1000])))
+    dflt = draw(st.integers(0, 5)) == 0
+    return {"kind": draw(st.sampled_from(["square", "triangle", "4-gon"])), "side": draw(num),
+            "center": [0, 0] if dflt else [draw(co), draw(co)], "default_center": dflt}
+
+
 def parts(tier):
     q = tier == "quick"
     pt = st.fixed_dictionaries({"x": _coord(), "y": _coord()})
@@ -406,5 +465,6 @@ def parts(tier):
         Part("py311", judge_py311, batch, n=40 if q else 400, shards=2),
         Part("operators", judge_operators, operator_cases(), n=600 if q else 12000, budget_s=80 if q else 1500),
         Part("transform", judge_transform, transform_cases(), n=1200 if q else 24000, budget_s=60 if q else 900),
+        Part("primitives", judge_primitive, primitive_cases(), n=600 if q else 12000, budget_s=40 if q else 600),
         Part("moments", judge_moments, moment_cases(), n=800 if q else 16000, budget_s=40 if q else 900),
     ]
